@@ -53,9 +53,11 @@ type chanModel struct {
 	closed bool
 	cap    int
 	len    int
+	keep   interface{} // the channel itself: models are keyed by address, which must not be reused within an execution
 }
 
 type wgModel struct {
+	keep    interface{} // the object itself (see chanModel.keep)
 	id      int
 	cnt     int // WaitGroup counter; for a mutex: 1 while held exclusively
 	readers int // RWMutex: number of shared holders
@@ -182,7 +184,7 @@ func (x *Exec) chanOf(c interface{}) *chanModel {
 	p := v.Pointer()
 	m := x.chans[p]
 	if m == nil {
-		m = &chanModel{id: len(x.chans), cap: v.Cap()}
+		m = &chanModel{id: len(x.chans), cap: v.Cap(), keep: c}
 		x.chans[p] = m
 	}
 	return m
@@ -243,7 +245,7 @@ func preHook(kind vsrt.Kind, obj interface{}, n int) {
 	case vsrt.KWgAdd, vsrt.KWgWait, vsrt.KLock, vsrt.KUnlock:
 		o.obj = reflect.ValueOf(obj).Pointer()
 		x.mu.Lock()
-		x.wgOf(o.obj)
+		x.wgOf(o.obj).keep = obj
 		x.mu.Unlock()
 	case vsrt.KYield:
 		o.tag, _ = obj.(string)
@@ -731,11 +733,20 @@ func Install() {
 	vsrt.SelectHook = selectHook
 	vsrt.PostHook = postHook
 	vsrt.TimerHook = timerHook
+	vsrt.AbortingHook = func() bool {
+		x := cur
+		if x == nil {
+			return false
+		}
+		x.mu.Lock()
+		defer x.mu.Unlock()
+		return x.aborting
+	}
 }
 
 // Uninstall restores pass-through mode.
 func Uninstall() {
-	vsrt.PreHook, vsrt.GoHook, vsrt.OrderHook, vsrt.SelectHook, vsrt.PostHook, vsrt.TimerHook = nil, nil, nil, nil, nil, nil
+	vsrt.PreHook, vsrt.GoHook, vsrt.OrderHook, vsrt.SelectHook, vsrt.PostHook, vsrt.TimerHook, vsrt.AbortingHook = nil, nil, nil, nil, nil, nil, nil
 }
 
 // abortAll lets every parked goroutine of a finished execution unwind and exit,
